@@ -79,7 +79,7 @@ pub fn cycle_check(m1: &A2lFile, k: usize, origin_text: &str) -> Result<(), (Str
                 };
                 return Err((
                     format!("reload of written text fails: {}{what}", crate::gram::err_class(&e)),
-                    format!("cycle {cycle}: load(write(M)) failed: {e}"),
+                    format!("cycle {cycle}: load(write(M)) failed: {e}; written text near the reported line: {}", near_error_line(&prev_text, &e.to_string())),
                 ));
             }
         };
@@ -142,6 +142,23 @@ pub fn cycle_check(m1: &A2lFile, k: usize, origin_text: &str) -> Result<(), (Str
         prev_model = Some(m2);
     }
     Ok(())
+}
+
+/// lines of `text` around the line number named in a parser error message (":<line>:")
+fn near_error_line(text: &str, msg: &str) -> String {
+    let line = msg
+        .split(':')
+        .filter_map(|p| p.trim().parse::<usize>().ok())
+        .next()
+        .unwrap_or(1);
+    let lines: Vec<&str> = text.lines().collect();
+    let from = line.saturating_sub(6);
+    let to = (line + 2).min(lines.len());
+    let mut out = String::new();
+    for (i, l) in lines.iter().enumerate().take(to).skip(from) {
+        out.push_str(&format!("[{}] {}\n", i + 1, vcommon::json::clip(l, 300)));
+    }
+    out
 }
 
 /// describe where two models differ, using their Debug text (line multisets, because the
